@@ -141,7 +141,7 @@ func gQuorumJoint(c *Check) {
 	lSym := fi.Sym(jci.Params[1])
 	idx := [2]*Sym{CallSym(mci, indexSym(cSym, 0), lSym), CallSym(mci, indexSym(cSym, 1), lSym)}
 	for _, ret := range returnsOf(fi) {
-		v := fi.Sym(ret.Results[0])
+		v := fi.RetSym(ret, 0)
 		site := p.site(ret)
 		isOne := v.Key() == idx[0].Key() || v.Key() == idx[1].Key()
 		c.Result(isOne, rule+".min", "JointConfig.CommittedIndex return value", fnName(jci), site, "returns one of the two per-majority indexes (same indexer)", "returns "+v.Key())
@@ -337,7 +337,7 @@ func c12Quorum(c *Check) {
 	sumGE := thr{-1, -1, 1, 1} // m+1 - yes - missing <= 0
 	sumLT := thr{1, 1, -1, 0}  // yes + missing - m <= 0
 	for _, ret := range returnsOf(fi) {
-		v := fi.Sym(ret.Results[0])
+		v := fi.RetSym(ret, 0)
 		site := p.site(ret)
 		f := fi.FactsAt(ret)
 		desc := strings.Join(f.Describe(), "; ")
@@ -482,7 +482,7 @@ func c12CommittedIndex(c *Check, fi *FuncInfo, fn *ssa.Function, nKey string) {
 	const rule = "C12.I"
 	sortFn := "slices.Sort"
 	for _, ret := range returnsOf(fi) {
-		v := fi.Sym(ret.Results[0])
+		v := fi.RetSym(ret, 0)
 		site := p.site(ret)
 		f := fi.FactsAt(ret)
 		if v.K == KConst {
